@@ -13,6 +13,8 @@ man = dict(
              kind_free_text="verification-condition generator over the clang JSON AST of the real C kernels (sidecar contracts, loop invariants, calls by contract), discharged by z3 5.1 / cvc5 / z3 4.8"),
         dict(name="harness", path="vf/harness.py", serves_properties=CHECKS['engine_c'],
              kind_free_text="generated C driver linked with the real kernel files under clang ASan+UBSan: replay of counter-models, bounded refuter"),
+        dict(name="contract-monitor", path="vf/child.py", serves_properties=CHECKS.get('monitor_only', []),
+             kind_free_text="run-time evaluation of sidecar contracts on the real Python functions over a bounded family of inputs, in a child process (bounded stand-in, never counted as proved)"),
         dict(name="engine-p", path="vf/engp.py", serves_properties=CHECKS.get('engine_p', []),
              kind_free_text="path-forking symbolic execution of the real Python functions by CPython on symbolic reals (sidecar contracts in contracts/py_*.py and props/), one VC per path, discharged by z3 / cvc5"),
     ],
